@@ -21,6 +21,15 @@ use {
             Hash,
             Hasher,
         },
+        sync::{
+            atomic::{
+                AtomicUsize,
+                Ordering as AtomicOrdering,
+            },
+            mpsc,
+            Mutex,
+        },
+        time::Duration,
     },
 };
 
@@ -253,56 +262,146 @@ fn naive_search(
     }
 }
 
+/// which call is running on the worker thread (reported when it hangs):
+/// (start vertex, kind, argument)
+static HANG_AT: [AtomicUsize; 3] = [AtomicUsize::new(0), AtomicUsize::new(0), AtomicUsize::new(0)];
+
+fn mark(s: usize, kind: usize, arg: usize) {
+    HANG_AT[0].store(s, AtomicOrdering::Relaxed);
+    HANG_AT[1].store(kind, AtomicOrdering::Relaxed);
+    HANG_AT[2].store(arg, AtomicOrdering::Relaxed);
+}
+
+fn hang_label() -> String {
+    let (s, kind, arg) = (
+        HANG_AT[0].load(AtomicOrdering::Relaxed),
+        HANG_AT[1].load(AtomicOrdering::Relaxed),
+        HANG_AT[2].load(AtomicOrdering::Relaxed),
+    );
+    match kind {
+        0 => format!("search({s}, {arg})"),
+        1 => format!("search_by({s}, |v, _| v is in target set #{arg})"),
+        2 => format!("search_by({s}, |_, p| p.is_none())"),
+        _ => format!("search_by({s}, |v, p| p == Some(v))"),
+    }
+}
+
+/// start vertices / targets: everything for short vectors, ids next to word
+/// boundaries for long ones
+fn c19_ids(n: usize) -> Vec<usize> {
+    if n <= 10 {
+        (0..n).collect()
+    } else {
+        boundary_ids(n)
+    }
+}
+
+fn c19_target_sets(pred: &[Option<usize>]) -> Vec<Vec<bool>> {
+    let n = pred.len();
+    if n <= 4 {
+        return (0..1u64 << n)
+            .map(|m| (0..n).map(|v| m >> v & 1 == 1).collect())
+            .collect();
+    }
+    let mut r = Rng::new(n as u64 * 7919 + pred.iter().flatten().sum::<usize>() as u64);
+    let mut sets = vec![vec![false; n], vec![true; n]];
+    for _ in 0..6 {
+        let den = 2 + r.below(n.min(40));
+        sets.push((0..n).map(|_| r.chance(1, den)).collect());
+    }
+    sets
+}
+
+fn c19_checks(pred: &[Option<usize>]) -> R {
+    let n = pred.len();
+    let t = PredecessorTree::from(pred.to_vec());
+    let ids = c19_ids(n);
+    let sets = c19_target_sets(pred);
+    for &s in &ids {
+        at("PredecessorTree::search");
+        let mut targets = ids.clone();
+        targets.push(n);
+        for tgt in targets {
+            mark(s, 0, tgt);
+            ensure_eq!(
+                format!("search({s}, {tgt}) is the predecessor chain from {s} up to the first occurrence of {tgt}, None if the chain ends or revisits a vertex first"),
+                naive_search(pred, s, &|v, _| v == tgt),
+                t.search(s, tgt)
+            );
+        }
+        at("PredecessorTree::search_by");
+        for (k, set) in sets.iter().enumerate() {
+            mark(s, 1, k);
+            let listed: Vec<usize> = (0..n).filter(|&v| set[v]).collect();
+            ensure_eq!(
+                format!("search_by({s}, |v, _| v in {listed:?}) is the chain from {s} up to the first target"),
+                naive_search(pred, s, &|v, _| set[v]),
+                t.search_by(s, |&v, _| set[v])
+            );
+        }
+        mark(s, 2, 0);
+        ensure_eq!(
+            format!("search_by({s}, |_, p| p.is_none()) is the chain from {s} up to the first vertex without predecessor"),
+            naive_search(pred, s, &|_, p| p.is_none()),
+            t.search_by(s, |_, p| p.is_none())
+        );
+        mark(s, 3, 0);
+        ensure_eq!(
+            format!("search_by({s}, |v, p| p == Some(v)) is the chain from {s} up to the first self-referential vertex"),
+            naive_search(pred, s, &|v, p| p == Some(v)),
+            t.search_by(s, |&v, p| *p == Some(v))
+        );
+    }
+    ensure_eq!("search does not change the tree", pred.to_vec(), t.pred.clone());
+    Ok(())
+}
+
+/// Every C19 case runs on a worker thread so that a search that does not
+/// terminate is reported (5 s timeout) instead of hanging the searcher. The
+/// worker is reused between cases; after a timeout it is abandoned (the
+/// process exits right after the report).
+struct Worker {
+    tx: mpsc::Sender<Vec<Option<usize>>>,
+    rx: mpsc::Receiver<R>,
+}
+
+static WORKER: Mutex<Option<Worker>> = Mutex::new(None);
+const C19_TIMEOUT: Duration = Duration::from_secs(5);
+
+fn spawn_worker() -> Worker {
+    let (tx, job_rx) = mpsc::channel::<Vec<Option<usize>>>();
+    let (res_tx, rx) = mpsc::channel::<R>();
+    let _ = std::thread::spawn(move || {
+        while let Ok(pred) = job_rx.recv() {
+            if res_tx.send(guarded(|| c19_checks(&pred))).is_err() {
+                break;
+            }
+        }
+    });
+    Worker { tx, rx }
+}
+
 impl Case for C19 {
     fn prop(&self) -> &'static str {
         "C19"
     }
 
     fn run(&self) -> R {
-        let pred = &self.pred;
-        let n = pred.len();
-        let t = PredecessorTree::from(pred.clone());
-        let masks: Vec<u64> = if n <= 4 {
-            (0..1u64 << n).collect()
-        } else {
-            let mut r = Rng::new(n as u64 * 7919 + pred.iter().flatten().sum::<usize>() as u64);
-            let mut m: Vec<u64> = (0..n).map(|v| 1 << v).collect();
-            m.push(0);
-            for _ in 0..6 {
-                m.push(r.next() & ((1 << n) - 1));
+        let mut slot = WORKER.lock().unwrap_or_else(|e| e.into_inner());
+        let w = slot.get_or_insert_with(spawn_worker);
+        w.tx.send(self.pred.clone()).expect("C19 worker is alive");
+        match w.rx.recv_timeout(C19_TIMEOUT) {
+            Ok(r) => r,
+            Err(_) => {
+                *slot = None;
+                at("PredecessorTree::search_by");
+                Err(mk_fail(
+                    &format!("{} terminates (5 s timeout)", hang_label()),
+                    "returns".into(),
+                    "still running after 5 s".into(),
+                ))
             }
-            m
-        };
-        for s in 0..n {
-            at("PredecessorTree::search");
-            for tgt in 0..=n {
-                ensure_eq!(
-                    format!("search({s}, {tgt}) is the predecessor chain from {s} up to the first occurrence of {tgt}, None if the chain ends or revisits a vertex first"),
-                    naive_search(pred, s, &|v, _| v == tgt),
-                    t.search(s, tgt)
-                );
-            }
-            at("PredecessorTree::search_by");
-            for &mask in &masks {
-                ensure_eq!(
-                    format!("search_by({s}, |v, _| v in targets mask {mask:#b}) is the chain from {s} up to the first target"),
-                    naive_search(pred, s, &|v, _| mask >> v & 1 == 1),
-                    t.search_by(s, |&v, _| mask >> v & 1 == 1)
-                );
-            }
-            ensure_eq!(
-                format!("search_by({s}, |_, p| p.is_none()) is the chain from {s} up to the first vertex without predecessor"),
-                naive_search(pred, s, &|_, p| p.is_none()),
-                t.search_by(s, |_, p| p.is_none())
-            );
-            ensure_eq!(
-                format!("search_by({s}, |v, p| p == Some(v)) is the chain from {s} up to the first self-referential vertex"),
-                naive_search(pred, s, &|v, p| p == Some(v)),
-                t.search_by(s, |&v, p| *p == Some(v))
-            );
         }
-        ensure_eq!("search does not change the tree", pred.clone(), t.pred.clone());
-        Ok(())
     }
 
     fn fields(&self) -> Vec<(String, J)> {
@@ -316,6 +415,74 @@ impl Case for C19 {
             ),
         )]
     }
+}
+
+/// long structured predecessor vectors: chains v -> v+1, reversed and
+/// shuffled chains, self-referential entries mid-chain, 2-cycles, rho
+/// shapes and full cycles
+fn c19_structured(rng: &mut Rng) -> Vec<Vec<Option<usize>>> {
+    let mut out = Vec::new();
+    // the small shapes first
+    out.push(vec![Some(1), Some(1)]);
+    out.push(vec![Some(1), Some(2), Some(2), None]);
+    out.push(vec![Some(1), Some(0)]);
+    out.push(vec![Some(1), Some(2), Some(1)]);
+    // 3 -> 5 -> 37 -> 40
+    let mut v = vec![None; 41];
+    v[3] = Some(5);
+    v[5] = Some(37);
+    v[37] = Some(40);
+    out.push(v);
+    for n in [40usize, 70, 130] {
+        let chain: Vec<Option<usize>> =
+            (0..n).map(|v| if v + 1 < n { Some(v + 1) } else { None }).collect();
+        let rev: Vec<Option<usize>> = (0..n).map(|v| v.checked_sub(1)).collect();
+        out.push(chain.clone());
+        out.push(rev.clone());
+        // shuffled chain through every vertex, starting at 0
+        for _ in 0..3 {
+            let mut order: Vec<usize> = (1..n).collect();
+            rng.shuffle(&mut order);
+            order.insert(0, 0);
+            let mut p = vec![None; n];
+            for w in order.windows(2) {
+                p[w[0]] = Some(w[1]);
+            }
+            out.push(p.clone());
+            // the same chain closed into one big cycle
+            p[*order.last().unwrap()] = Some(0);
+            out.push(p);
+        }
+        // self-referential entry mid-chain (no target beyond it is reachable)
+        for k in boundary_ids(n) {
+            let mut p = chain.clone();
+            p[k] = Some(k);
+            out.push(p);
+            let mut p = rev.clone();
+            p[k] = Some(k);
+            out.push(p);
+        }
+        // 2-cycle at the end of the chain
+        let mut p = chain.clone();
+        p[n - 1] = Some(n - 2);
+        out.push(p);
+        // rho shapes: a tail leading into a cycle of length l
+        for l in [1usize, 2, 3, 31, 32, 33, 64, 65] {
+            if l < n {
+                let mut p = chain.clone();
+                p[n - 1] = Some(n - l);
+                out.push(p);
+                let mut p = rev.clone();
+                p[0] = Some(l - 1);
+                out.push(p);
+            }
+        }
+        // full cycle
+        let mut p = chain.clone();
+        p[n - 1] = Some(0);
+        out.push(p);
+    }
+    out
 }
 
 pub fn search_c19(seed: u64, ctx: &mut Ctx) -> Option<J> {
@@ -335,12 +502,22 @@ pub fn search_c19(seed: u64, ctx: &mut Ctx) -> Option<J> {
         }
     }
     let mut rng = Rng::new(seed);
+    for pred in c19_structured(&mut rng) {
+        if let Some(f) = ctx.eval(&C19 { pred }) {
+            return Some(f);
+        }
+    }
     for i in 0..60_000usize {
-        let n = 5 + rng.below(4);
+        let n = match i % 200 {
+            0 => 40,
+            1 => 70,
+            2 => 130,
+            _ => 5 + rng.below(4),
+        };
         let none = 1 + rng.below(4);
         let pred: Vec<Option<usize>> = (0..n)
             .map(|_| {
-                if rng.chance(none, 8) {
+                if rng.chance(none, 8 * (1 + n / 20)) {
                     None
                 } else {
                     Some(rng.below(n))
@@ -365,8 +542,8 @@ pub fn replay_c19(j: &J) -> Result<Option<J>, String> {
             x => Some(x.usize()?),
         });
     }
-    if pred.is_empty() || pred.len() > 60 {
-        return Err("pred must hold 1..=60 entries".into());
+    if pred.is_empty() || pred.len() > 4096 {
+        return Err("pred must hold 1..=4096 entries".into());
     }
     if pred.iter().flatten().any(|&p| p >= pred.len()) {
         return Err("C19 is about predecessor vectors whose entries are in range".into());
